@@ -1,3 +1,4 @@
+mod alloc;
 mod clock;
 mod prng;
 mod report;
@@ -18,6 +19,9 @@ mod rank;
 mod sim;
 
 use util::Ctx;
+
+#[global_allocator]
+static GLOBAL: alloc::SeamAlloc = alloc::SeamAlloc;
 
 fn usage() -> ! {
     eprintln!("usage: rqsim <C01|C02|C03|C07|C08|C16|C18> <quick|thorough> | rqsim replay <file>");
